@@ -149,7 +149,9 @@ CHECKS = {
         "and every source text handed to exec must match an AST allow-list.",
         "Quick tier samples 1/16 of the length-3 strings; the monitors shadow module attributes of flow.record.base "
         "from the check process. Further enumerated parts: derived-type-names (every near miss of a whitelisted "
-        "type name), template-identifiers, reserved-field-positions.",
+        "type name), template-identifiers, reserved-field-positions, after-colliding-twin (a definition that follows a "
+        "valid one with the same identifier), bytes-names (names given as bytes, undecodable bytes included), and every "
+        "field view (fields / get_all_fields / getfields) of an accepted descriptor.",
         "DESIGN.md 4/C06",
     ),
     "C12": (
